@@ -344,7 +344,9 @@ func runCase(t *rapid.T, c cfg) *result {
 			if err := D.CheckChainInvariants(genesisHash, known); err != nil {
 				t.Fatalf("%s\nafter the rejection the chain database is incoherent: %v\n%s", where, err, history())
 			}
-			if directChild && tb.Kind != "ok" {
+			// a block whose number does not continue its parent's is taken for a side-branch block and its raw record
+			// is kept like that of any not yet validated side block: for it only state, indexes and best block are compared
+			if directChild && tb.Kind != "ok" && !strings.HasPrefix(tb.Kind, "number-") {
 				if diff := diffSnap(preSnap, storeSnapshot(D)); diff != "" {
 					t.Fatalf("%s\nthe invalid block was rejected but the chain database changed: %s\n%s", where, diff, history())
 				}
